@@ -122,6 +122,13 @@ KNOWN_CLASSES = {"monotone_convex_bounds_not_repaired_by_squeeze": d2_class,
                  "clamp_with_zero_iterations": d3_class}
 
 
+def coq_cfg(d, omin_v, omax_v, cmin, cmax):
+  cname = {"NONE": "BNone", "BOUND": "BBound", "CLAMPED": "BClamped"}
+  return "(mkPwl %s %s %s %s %s %s %s %s)" % (
+      cz(d["mono"]), cz(d["conv"]), cq(omin_v), cq(omax_v), cname[cmin.name if hasattr(cmin, "name") else str(cmin)],
+      cname[cmax.name if hasattr(cmax, "name") else str(cmax)], cql(d["lengths"]), cnat(d["iters"]))
+
+
 def eval_cases(ctx, descs):
   tf, tfl = tfimpl.tfl()
   lib = tfl.pwl_calibration_lib
@@ -167,10 +174,7 @@ def eval_cases(ctx, descs):
         ch = np.abs(R2 - R).max()
         if ch > 1e-9 * max(1.0, np.abs(R).max()):
           fails.append("idempotence: a kernel meeting all constraints is moved by %r when projected again" % ch)
-    cname = {"NONE": "BNone", "BOUND": "BBound", "CLAMPED": "BClamped"}
-    cfg = "(mkPwl %s %s %s %s %s %s %s %s)" % (
-        cz(d["mono"]), cz(d["conv"]), cq(omin_v), cq(omax_v), cname[cmin.name if hasattr(cmin, "name") else str(cmin)],
-        cname[cmax.name if hasattr(cmax, "name") else str(cmax)], cql(d["lengths"]), cnat(d["iters"]))
+    cfg = coq_cfg(d, omin_v, omax_v, cmin, cmax)
     coq = "CProj %s %s %s %s" % (cfg, cnat(d["units"]), cqm(d["W"]), cqm([[float(v) for v in r] for r in R]))
     moved = np.abs(R - W).max() > 1e-12
     klass = "m%d_c%d_%s%s_%s%s" % (d["mono"], d["conv"], "b" if d["omin"] is not None else "", "B" if d["omax"] is not None else "",
